@@ -1,6 +1,9 @@
 (* C45, material-property inputs: used when the generated code exports the physical bounds of an input without @Bounds *)
-From Coq Require Import String List.
+From Coq Require Import String List ZArith Bool Arith Sorted.
 From C45 Require Import C45Model C45Spec C45Proofs.
+Import ListNotations.
+Local Open Scope string_scope.
+Local Open Scope list_scope.
 Theorem C45_material_property_inputs_faithful : forall vr g d,
   mp_phys_needs_bounds vr = false -> dkind d = MaterialProperty ->
   Forall2 (scalar_faithful g (dunit d)) (dinputs d) (t_args (symbols vr g d)).
